@@ -80,6 +80,15 @@ def joint_py(spec, asg):
 _CL = {}
 
 
+def _pop(script, point):
+    """next scripted item; when the implementation makes more transitions than configured the script is exhausted:
+    continue with a neutral item so that the trace oracle can report the surplus transitions"""
+    if script:
+        return script.pop(0)
+    d = len(np.asarray(point).ravel())
+    return {"vec": [0.0] * d, "u": 0.5, "acc": 1}
+
+
 def classes():
     import cuqi
     if _CL.get("mod") is cuqi:
@@ -138,7 +147,7 @@ def classes():
 
         def step(self):
             self._tr.on_step(self)
-            it = self._script.pop(0)
+            it = _pop(self._script, self.current_point)
             self.current_point = np.asarray(it["vec"], dtype=float)
             return it["acc"]
 
@@ -155,7 +164,7 @@ def classes():
 
         def step(self):
             self._tr.on_step(self)
-            it = self._script.pop(0)
+            it = _pop(self._script, self.current_point)
             self._holder["xi"], self._holder["u"] = it["vec"], it["u"]
             self._holders["active"] = self._holder
             return super().step()
@@ -173,7 +182,7 @@ def classes():
 
         def step(self):
             self._tr.on_step(self)
-            it = self._script.pop(0)
+            it = _pop(self._script, self.current_point)
             self._zsrc["z"] = it["vec"]
             return super().step()
 
@@ -205,7 +214,7 @@ def classes():
 
         def step(self):
             self._tr.on_step(self)
-            it = self._script.pop(0)
+            it = _pop(self._script, self.current_point)
             self.current_point = np.asarray(it["vec"], dtype=float)
             return it["acc"]
 
@@ -625,15 +634,22 @@ HY_CELLS = [
 ]
 
 
-def gen_hybrid(rng, cell):
+def gen_hybrid(rng, cell, rep=1):
     name, k, ndata, kinds, steps, ops = cell
     leaf = kinds.index("KDirect") if "KDirect" in kinds else None
-    spec = gen_spec(rng, k, ndata, leaf=leaf)
+    dims = [rng.choice([1, 1, 2]) for _ in range(k)]
+    force_scalar = (rep % 3 == 0)              # every third scenario of a cell: block 0 is one-dimensional and starts from a plain number
+    if force_scalar:
+        dims[0] = 1
+    spec = gen_spec(rng, k, ndata, leaf=leaf, dims=dims)
     nst = [1 if (steps is None or steps[i] is None) else steps[i] for i in range(k)]
     nsw = sum(op[1] for op in ops)
     scales = [rng.choice([0.25, 0.5, 1.0]) for _ in range(k)]
     inits = [None if rng.random() < 0.25 else rvec(rng, spec["dims"][i], -2, 2, 2) for i in range(k)]
-    init_scalar = [bool(inits[i] is not None and spec["dims"][i] == 1 and kinds[i] != "KDirect" and rng.random() < 0.4) for i in range(k)]
+    if force_scalar and inits[0] is None:
+        inits[0] = rvec(rng, 1, -2, 2, 2)
+    init_scalar = [bool(inits[i] is not None and spec["dims"][i] == 1 and kinds[i] != "KDirect" and (rng.random() < 0.3 or (force_scalar and i == 0)))
+                   for i in range(k)]
     return {"iface": "hybrid", "cell": name, "spec": spec, "kinds": list(kinds), "num_steps": None if steps is None else list(steps),
             "ops": [list(o) for o in ops], "scales": scales, "inits": inits, "init_scalar": init_scalar, "probes": gen_probes(rng, spec),
             "script": gen_script(rng, spec, kinds, nst, nsw, scales)}
@@ -964,7 +980,7 @@ def make_cases(meta, fresh):
         detail, sig = oracle_hybrid(meta, obs)
         out.append(Case(expr=encode_hybrid(meta, obs, fresh), meta=meta, cell=meta["cell"], kind="EXACT" if "KMH" in meta["kinds"] or "KDirect" in meta["kinds"] else "DECISION",
                         impl_fail=detail, signature=sig or ""))
-        if any(meta.get("init_scalar", [])) and not obs.get("error"):
+        if not obs.get("error"):
             d = oracle_get_samples(meta, obs)
             m3 = dict(meta)
             m3["check"] = "get_samples"
@@ -992,8 +1008,8 @@ def run(ctx):
     cases = []
     reps = ctx.n(10, 150)
     for cell in HY_CELLS:
-        for _ in range(reps):
-            cases += make_cases(gen_hybrid(rng, cell), fresh)
+        for rep in range(reps):
+            cases += make_cases(gen_hybrid(rng, cell, rep), fresh)
     for cell in LG_CELLS:
         for _ in range(reps):
             cases += make_cases(gen_legacy(rng, cell), fresh)
